@@ -14,7 +14,8 @@
 (*   reload  store.go Add: insertMu + searchMu.RLock, iterates             *)
 (*           v.LabelValues of the old metric copying Labels and Expiry,    *)
 (*           v.GetDatum (v.Lock), then searchMu.Lock to swap the map entry *)
-(*   prom / varz / graphite   exporter: Range, m.RLock, EmitLabelSets      *)
+(*   prom / varz / graphite / push (writeSocketMetrics of the collectd,    *)
+(*           graphite and statsd push) exporter: Range, m.RLock, EmitLabelSets *)
 (*           (a child goroutine, ordered inside the RLock by the channel), *)
 (*           atomic loads of the datum                                     *)
 (*   json    exporter HandleJSON -> Store.MarshalJSON: searchMu.RLock,     *)
@@ -88,7 +89,7 @@ Program(a) ==
          \* v.GetDatum(oldLabel.Labels...): finds the datum, or re-creates a label value deleted since the range read it
          <<Acq("m", "W"), Acc("LV", "R", "Metric.GetDatum"), Acc("LV", "W", "Metric.AppendLabelValue"), Rel("m", "W"),
            Rel("search", "R"), Acq("search", "W"), Acc("MAP", "W", "Store.Add"), Rel("search", "W"), Rel("insert", "W")>>
-    [] a \in {"prom", "varz", "graphite"} ->
+    [] a \in {"prom", "varz", "graphite", "push"} ->
          <<Acq("search", "R"), Acc("MAP", "R", "Store.Range"), Acq("m", "R"), Acc("LV", "R", "Metric.EmitLabelSets"),
            Op("load"), Rel("m", "R"), Rel("search", "R")>>
     [] a = "json" ->
@@ -98,7 +99,7 @@ Program(a) ==
 
 Done(a) == pc[a] > Len(Program(a))
 Instr(a) == Program(a)[pc[a]]
-Exporters == {"prom", "varz", "graphite", "json"}
+Exporters == {"prom", "varz", "graphite", "push", "json"}
 
 Init == /\ active \in Groups
         /\ pc = [a \in Actors |-> IF a \in active THEN 1 ELSE Len(Program(a)) + 1]
